@@ -1718,7 +1718,16 @@ class TaskScenario(ScenarioData):
 
         # Fall back to allocate (which may contain IDs or resource objects)
         allocate = self.property.get("allocate", self.scenarioIdx) or []
-        for res in allocate:
+        # An allocation with options is stored as a dict: every candidate it names (primary
+        # resources and alternatives) may be the one that did the work
+        names: list[Any] = []
+        for entry in allocate:
+            if isinstance(entry, dict):
+                names.extend(entry.get("resources", []))
+                names.extend(entry.get("options", {}).get("alternative", []))
+            else:
+                names.append(entry)
+        for res in names:
             if isinstance(res, str):
                 # Look up resource by ID
                 for resource in self.project.resources:
